@@ -1,7 +1,7 @@
 SPECIFICATION TSpec
 CONSTANTS
   Threads <- Cast
-  Conns = {"c1", "c2"}
+  Conns = {"c1", "c2", "c3"}
   Signals = {"A", "B"}
   ConnOf <- CastConn
   SigOf <- CastSig
@@ -10,6 +10,14 @@ CONSTANTS
   QCap = 100
   Dev_ProxySectionsNotAtomic = FALSE
   Dev_SendAfterSnapshot = TRUE
+  Objects = {"o1", "o2", "o3"}
+  ObjOf <- CastObj
+  Devs = {}
+  Probe <- NoProbe
+  Failing = {"c3"}
+  Inject <- InjAny
+  Rogue = {"c1", "c2"}
+  SkipScenarios = FALSE
 CONSTRAINT Check
 POSTCONDITION Report
 CHECK_DEADLOCK FALSE
